@@ -107,7 +107,15 @@ pub struct CrashPlan {
     /// panic when this replica sees its n-th data element (0 = the first), or at FlushAndRestart
     /// if it has fewer
     pub nth: u32,
+    /// what the user function panics with: 0 = panic!(format string), 1 = panic_any(an error
+    /// value), 2 = panic!("literal")
+    #[serde(default)]
+    pub payload: u8,
 }
+
+/// a user error value used as a panic payload (neither &str nor String)
+#[derive(Debug)]
+pub struct InjectedError(pub u32);
 
 pub static REC: Mutex<Option<Recorder>> = Mutex::new(None);
 
